@@ -18,6 +18,7 @@ import (
 	"sort"
 	"reflect"
 	"strings"
+	"time"
 	"unsafe"
 
 	"verif/harness/abci"
@@ -33,13 +34,35 @@ import (
 // newChainFromExport: like abci.NewChainFromExport but the new chain continues at the exported
 // height (InitialHeight = last height + 1), as a network restart from an exported genesis does.
 func newChainFromExport(src *abci.Chain, state []byte) (*abci.Chain, string) {
+	return newChainFromExportAt(src, state, Schedule{Name: "same-time"})
+}
+
+// Schedule: how the restart is carried out relative to the export (block time T, height h): the new
+// chain's genesis time is T + Later seconds, its InitialHeight h + 1 + Higher.
+type Schedule struct {
+	Name   string `json:"name"`
+	Later  int64  `json:"later_s"`
+	Higher int64  `json:"higher_blocks"`
+}
+
+// every pending deadline of the populated states (voting / enactment ends: minutes; unjail window, claim
+// expiry, unstaking period: days; UBI period: 30 days) lies before T + 35 days
+var Schedules = []Schedule{
+	{"same-time", 0, 0},
+	{"later-7s", 7, 0},
+	{"later-35d", 3000000, 0},
+	{"higher-1000", 0, 1000},
+	{"later-35d-higher-1000", 3000000, 1000},
+}
+
+func newChainFromExportAt(src *abci.Chain, state []byte, sc Schedule) (*abci.Chain, string) {
 	app, enc := abci.NewApp()
-	c := &abci.Chain{App: app, Enc: enc, Accounts: src.Accounts, Validators: src.Validators, Time: src.Time}
+	c := &abci.Chain{App: app, Enc: enc, Accounts: src.Accounts, Validators: src.Validators, Time: src.Time.Add(time.Duration(sc.Later) * time.Second)}
 	p := hx.Try(func() {
 		c.App.InitChain(abcitypes.RequestInitChain{ChainId: abci.ChainID, Time: c.Time, Validators: []abcitypes.ValidatorUpdate{},
-			ConsensusParams: simtestutil.DefaultConsensusParams, AppStateBytes: state, InitialHeight: src.Height + 1})
+			ConsensusParams: simtestutil.DefaultConsensusParams, AppStateBytes: state, InitialHeight: src.Height + 1 + sc.Higher})
 	})
-	c.Height = src.Height
+	c.Height = src.Height + sc.Higher
 	return c, p
 }
 
@@ -83,6 +106,15 @@ type Probe struct {
 	B    string `json:"reimported"`
 }
 
+// SchedRun: the same export re-imported under another restart schedule; both chains then get the same
+// further blocks at the same (later) times and must answer alike.
+type SchedRun struct {
+	Schedule    Schedule `json:"schedule"`
+	ReplayOK    bool     `json:"history_replay_reproduced_state"`
+	ImportPanic string   `json:"import_panic,omitempty"`
+	Probes      []Probe  `json:"probes"`
+}
+
 type Case struct {
 	Index        int        `json:"index"`
 	Seed         uint64     `json:"seed"`
@@ -98,6 +130,7 @@ type Case struct {
 	Diffs        []Diff     `json:"diffs"`
 	Export2      []string   `json:"second_export_differs_in"`
 	Probes       []Probe    `json:"probes"`
+	Scheduled    []SchedRun `json:"restart_schedules"`
 	Snap         [2]Snap    `json:"snapshots"`
 }
 
@@ -275,14 +308,58 @@ func runCase(idx int, seed uint64, f Features) Case {
 		}
 		sort.Strings(cs.Export2)
 	}
-	cs.Probes = RunProbes(c, c2, f)
+	appHash := fmt.Sprintf("%x", c.App.LastCommitID().Hash)
+	cs.Probes = RunProbes(c, c2, f, false)
+	// further restart schedules: the history is replayed on a fresh original chain (the first one has
+	// moved on), exported, re-imported later / higher, and both get the same further blocks
+	for si, sc := range Schedules {
+		if si == 0 || !(allSchedules || idx == 0 || 1+(idx%(len(Schedules)-1)) == si) {
+			continue
+		}
+		run := SchedRun{Schedule: sc}
+		a := abci.NewChain(abci.Config{Accounts: 6, Validators: f.Validators, Seed: seed})
+		Populate(a, f, hx.NewRng(seed))
+		// the replay must reproduce the exported state (custody records are excluded: their protobuf
+		// encoding marshals a Go map in random order, a C01 finding)
+		run.ReplayOK = a.Height == cs.Height
+		if fmt.Sprintf("%x", a.App.LastCommitID().Hash) != appHash {
+			ds, _ := diffStores(da, a.DumpStores(a.QueryCtx()))
+			for _, d := range ds {
+				if d.Store != "custody" {
+					run.ReplayOK = false
+				}
+			}
+		}
+		st, pe := a.Export()
+		if pe != "" {
+			run.ImportPanic = "export: " + pe
+			cs.Scheduled = append(cs.Scheduled, run)
+			continue
+		}
+		if cs.ImportPanic != "" {
+			st = patchUpgradeVersion(st)
+		}
+		b, pi := newChainFromExportAt(a, st, sc)
+		if pi != "" {
+			run.ImportPanic = pi
+			cs.Scheduled = append(cs.Scheduled, run)
+			continue
+		}
+		uncommitted[b] = true
+		a.Time = b.Time // the original chain's next block is produced at the same (later) time
+		run.Probes = RunProbes(a, b, f, sc.Higher != 0)
+		cs.Scheduled = append(cs.Scheduled, run)
+	}
 	return cs
 }
+
+var allSchedules = false
 
 func main() {
 	outDir := flag.String("out", ".", "output directory")
 	n := flag.Int("n", 12, "number of histories")
 	verbose := flag.Bool("v", false, "print step logs and diffs")
+	flag.BoolVar(&allSchedules, "all-schedules", os.Getenv("VERIF_TIER") == "thorough", "run every restart schedule for every history (default: all for history 0, one per history otherwise)")
 	flag.Parse()
 	repo := os.Getenv("VERIF_REPO")
 	if repo == "" {
@@ -335,6 +412,14 @@ func main() {
 					m = "!!"
 				}
 				fmt.Printf("  %s probe %-32s A=%s | B=%s\n", m, p.Name, p.A, p.B)
+			}
+			for _, sr := range cs.Scheduled {
+				fmt.Printf("  schedule %-24s replay=%v import panic %q\n", sr.Schedule.Name, sr.ReplayOK, sr.ImportPanic)
+				for _, p := range sr.Probes {
+					if p.A != p.B {
+						fmt.Printf("  !! @%s probe %-32s A=%s | B=%s\n", sr.Schedule.Name, p.Name, p.A, p.B)
+					}
+				}
 			}
 			fmt.Printf("  populated: %v\n", cs.Populated)
 		}
